@@ -126,11 +126,7 @@ func runR04_2(c *Ctx, r *R) {
 			if !ok {
 				continue
 			}
-			mc, ok := d.Call.Value.(*ssa.MakeClosure)
-			if !ok {
-				continue
-			}
-			cf, _ := mc.Fn.(*ssa.Function)
+			cf := deferredFunc(d)
 			if cf == nil {
 				continue
 			}
@@ -250,6 +246,19 @@ func runR04_5(c *Ctx, r *R) {
 		}
 		k, ok := ret.Results[0].(*ssa.Const)
 		if !ok || k.Value == nil || k.Value.Kind() != constant.String {
+			// a lookup in an identity table keyed by the received text, returned only when the key was found
+			if entries, isTable := identityTableLookup(c, f, ret); isTable {
+				for _, e := range entries {
+					n++
+					key := fmt.Sprintf("%s/case:%q", fnKey(f), e.key)
+					if e.key == e.val {
+						r.OK(key, ret.Pos(), "table entry maps the code to itself")
+					} else {
+						r.Bad(key, ret.Pos(), "the code table of parseStatusCode maps %q to %q: the caller observes another status code than the server sent", e.key, e.val)
+					}
+				}
+				continue
+			}
 			// default: a clone of the input
 			key := fnKey(f) + "/default"
 			isClone := false
